@@ -488,6 +488,8 @@ impl Check for C12 {
         f[31] = "disk-full";
         f[19] = "cli";
         f[37] = "cli";
+        f[15] = "two-callers";
+        f[39] = "two-callers";
         f[3] = "clock";
         f[11] = "clock";
         f[27] = "clock";
@@ -508,6 +510,33 @@ impl Check for C12 {
             let mut c = super::c19::C19.gen(seed ^ 0xC12, "cli", tier);
             c.check = "C12".into();
             c.family = "cli".into();
+            return c;
+        }
+        if family == "two-callers" {
+            // a second caller thread hands a batch of its own - empty half of the time - to run() on the same
+            // application at the same time (round 7): whatever the two calls share, the first caller's malformed
+            // batch is judged as ever (no panic in any thread, every query answered, isolation)
+            let mut c = gen(seed, "malformed", tier);
+            c.family = family.to_string();
+            let mut r = Rng::new(seed ^ fnv64("C12-two-callers"));
+            let mut other: Vec<Value> = vec![];
+            if r.chance(0.5) {
+                let plain: Vec<Value> = c.batches[0].iter().filter(|q| q.is_object() && q.get("_qid").map_or(false, |x| x.is_u64())).cloned().collect();
+                for (k, q) in plain.iter().take(3).enumerate() {
+                    let mut q2 = q.clone();
+                    q2["_qid"] = json!(5000 + k as u64);
+                    other.push(q2);
+                }
+            }
+            c.batches.push(other);
+            c.world.out = None;
+            if c.world.parallelism == 0 {
+                c.world.parallelism = 2;
+            }
+            if c.run_parallelism == Some(0) {
+                c.run_parallelism = None;
+            }
+            c.params["two_callers"] = json!(true);
             return c;
         }
         gen(seed, family, tier)
